@@ -106,6 +106,10 @@ def set_cont_state(run: Run, ws: Ref, state: str):
     if state == "idle":
         c.fields["cont_data"] = NONE
         c.fields["recving_frames"] = NONE
+    elif state.endswith("_fired"):
+        # per-fragment delivery: earlier fragments were already handed out
+        c.fields["cont_data"] = NONE
+        c.fields["recving_frames"] = C(1 if state.startswith("text") else 2)
     else:
         op = 1 if state == "text" else 2
         c.fields["recving_frames"] = C(op)
